@@ -8,6 +8,7 @@ import (
 	"math/rand"
 	"os"
 	"os/exec"
+	"sort"
 	"strings"
 
 	openfgav1 "github.com/openfga/api/proto/openfga/v1"
@@ -97,6 +98,116 @@ func checkPurity(run *core.Run, m *openfgav1.AuthorizationModel) {
 		}
 	})
 	run.NonTrivial(c.Model)
+}
+
+func wgKey(b *graph.WeightedAuthorizationModelGraphBuilder, m *openfgav1.AuthorizationModel) string {
+	g, err := b.Build(m)
+	if err != nil {
+		return "rejected"
+	}
+	return ref.CanonWeighted(g)
+}
+
+// checkObjectReuse: history independence at the level of API objects. One builder value is reused for a sequence
+// of calls on ONE model value that is edited in place between the calls (a legitimate use: the caller owns the
+// model between calls); every answer must equal the answer of a fresh builder on a fresh copy. The same is done
+// for the printer and the plain graph (anything remembered per model pointer shows up here).
+func checkObjectReuse(run *core.Run, r *rand.Rand, m *openfgav1.AuthorizationModel) {
+	c := &core.Case{Kind: "reuse", Model: modelJSON(m)}
+	shared := graph.NewWeightedAuthorizationModelGraphBuilder()
+	edits := 0
+	compare := func(stage string) bool {
+		fresh := proto.Clone(m).(*openfgav1.AuthorizationModel)
+		run.Eval(3)
+		if got, want := wgKey(shared, m), wgKey(graph.NewWeightedAuthorizationModelGraphBuilder(), fresh); got != want {
+			run.Violation("reused-builder-answers-from-an-earlier-call", c, "fresh builder on a fresh copy: "+clipStr(want, 1500), stage+": "+clipStr(got, 1500)+"\n"+gen.PPModel(m))
+			return false
+		}
+		d1, e1 := transformer.TransformJSONProtoToDSL(m)
+		d2, e2 := transformer.TransformJSONProtoToDSL(fresh)
+		if d1 != d2 || (e1 == nil) != (e2 == nil) {
+			run.Violation("printer-answers-from-an-earlier-call", c, d2, stage+": "+d1)
+			return false
+		}
+		g1, _ := graph.NewAuthorizationModelGraph(m)
+		g2, _ := graph.NewAuthorizationModelGraph(fresh)
+		if g1 != nil && g2 != nil && g1.GetDOT() != g2.GetDOT() {
+			run.Violation("plain-graph-answers-from-an-earlier-call", c, g2.GetDOT(), stage+": "+g1.GetDOT())
+			return false
+		}
+		return true
+	}
+	if !compare("first call") {
+		return
+	}
+	for step := 0; step < 4; step++ {
+		var tds []*openfgav1.TypeDefinition
+		for _, td := range m.GetTypeDefinitions() {
+			if len(td.GetRelations()) > 0 {
+				tds = append(tds, td)
+			}
+		}
+		if len(tds) == 0 {
+			return
+		}
+		td := tds[r.Intn(len(tds))]
+		rn := pickSortedKey(r, td.GetRelations())
+		what := ""
+		switch r.Intn(5) {
+		case 0: // remove a relation (possibly the target of a tuple-to-userset or of a userset restriction)
+			delete(td.Relations, rn)
+			if td.GetMetadata().GetRelations() != nil {
+				delete(td.Metadata.Relations, rn)
+			}
+			what = "removed " + td.GetType() + "#" + rn
+		case 1: // add a relation
+			td.Relations["added"] = gen.This()
+			if td.Metadata == nil {
+				td.Metadata = &openfgav1.Metadata{}
+			}
+			if td.Metadata.Relations == nil {
+				td.Metadata.Relations = map[string]*openfgav1.RelationMetadata{}
+			}
+			td.Metadata.Relations["added"] = &openfgav1.RelationMetadata{DirectlyRelatedUserTypes: []*openfgav1.RelationReference{gen.RefType(m.TypeDefinitions[0].GetType())}}
+			what = "added " + td.GetType() + "#added"
+		case 2: // replace a rewrite
+			td.Relations[rn] = gen.Union(gen.This(), gen.TTU("added", "p"))
+			if td.Metadata == nil {
+				td.Metadata = &openfgav1.Metadata{}
+			}
+			if td.Metadata.Relations == nil {
+				td.Metadata.Relations = map[string]*openfgav1.RelationMetadata{}
+			}
+			td.Metadata.Relations[rn] = &openfgav1.RelationMetadata{DirectlyRelatedUserTypes: []*openfgav1.RelationReference{gen.RefType(m.TypeDefinitions[0].GetType())}}
+			what = "replaced the rewrite of " + td.GetType() + "#" + rn
+		case 3: // change the parents of the tupleset
+			if md := td.GetMetadata().GetRelations()["p"]; md != nil {
+				md.DirectlyRelatedUserTypes = append(md.DirectlyRelatedUserTypes, gen.RefType(m.TypeDefinitions[len(m.TypeDefinitions)-1].GetType()))
+				what = "added a parent type to " + td.GetType() + "#p"
+			}
+		case 4: // reorder the type definitions
+			r.Shuffle(len(m.TypeDefinitions), func(i, j int) { m.TypeDefinitions[i], m.TypeDefinitions[j] = m.TypeDefinitions[j], m.TypeDefinitions[i] })
+			what = "shuffled type_definitions"
+		}
+		if what == "" {
+			continue
+		}
+		edits++
+		if !compare("after edit " + fmt.Sprint(edits) + " (" + what + ")") {
+			return
+		}
+	}
+	run.Count("object_reuse_sequences", 1)
+	run.Count("object_reuse_edits", int64(edits))
+}
+
+func pickSortedKey(r *rand.Rand, m map[string]*openfgav1.Userset) string {
+	var ks []string
+	for k := range m {
+		ks = append(ks, k)
+	}
+	sort.Strings(ks)
+	return ks[r.Intn(len(ks))]
 }
 
 func checkPurityFiles(run *core.Run, files []core.File) {
@@ -286,7 +397,7 @@ func checkHistory(run *core.Run, nProbes, nHistories, histLen int) {
 }
 
 func runC13(run *core.Run) {
-	run.Rule = "(1) input-snapshot monitor (deep clone + element identity before, compared after) around every entry point taking a model or a file slice, on generated models - half of them modular with the type list not in module order - and G3 file sets; (2) go test -race workload: rounds of 12-16 goroutines released by a barrier on a fresh clone of a shared input per round (render one shared unsorted modular model; render + both graph builders + utils on one model; parse distinct texts; parse one text; merge one file slice; validators and fga.mod), results compared with the sequential baseline, overlapping call pairs counted, report blocks of the race log de-duplicated by outermost repository frames; (3) history: per probe input the hash of everything it yields (model, DSL, weighted graph, DOT) must be equal in a cold process, after the other probes, in reverse order and after arbitrary earlier inputs; non-trivial = snapshotted model / file set; distinct by input"
+	run.Rule = "(1) input-snapshot monitor; object-reuse monitor (one builder value and one model value edited in place between calls: every answer must equal a fresh builder on a fresh copy; same for printer and plain graph) (deep clone + element identity before, compared after) around every entry point taking a model or a file slice, on generated models - half of them modular with the type list not in module order - and G3 file sets; (2) go test -race workload: rounds of 12-16 goroutines released by a barrier on a fresh clone of a shared input per round (render one shared unsorted modular model; render + both graph builders + utils on one model; parse distinct texts; parse one text; merge one file slice; validators and fga.mod), results compared with the sequential baseline, overlapping call pairs counted, report blocks of the race log de-duplicated by outermost repository frames; (3) history: per probe input the hash of everything it yields (model, DSL, weighted graph, DOT) must be equal in a cold process, after the other probes, in reverse order and after arbitrary earlier inputs; non-trivial = snapshotted model / file set; distinct by input"
 	n := run.N(6000, 100000)
 	core.Parallel(n, func(i int) {
 		r := run.Rng("c13", i)
@@ -302,6 +413,9 @@ func runC13(run *core.Run) {
 		}
 		checkPurity(run, m)
 		run.SampleAt(i, n/3+1, func() any { return gen.PPModel(m) })
+		if i%2 == 1 {
+			checkObjectReuse(run, r, m) // edits m in place: last use of m
+		}
 	})
 	nf := run.N(1500, 30000)
 	core.Parallel(nf, func(i int) {
@@ -324,6 +438,15 @@ func replayC13(run *core.Run, c *core.Case) {
 		checkPurity(run, m)
 	case "files":
 		checkPurityFiles(run, c.Files)
+	case "reuse":
+		m, err := modelFromJSON(c.Model)
+		if err != nil {
+			fmt.Println(err)
+			return
+		}
+		for k := 0; k < 50; k++ {
+			checkObjectReuse(run, run.Rng("replay-reuse", k), proto.Clone(m).(*openfgav1.AuthorizationModel))
+		}
 	case "history":
 		cold, err1 := runHistoryProcess([]string{c.DSL})
 		warm, err2 := runHistoryProcess(append(append([]string{}, c.Strs...), c.DSL))
